@@ -675,11 +675,19 @@ def _build_c04(inputs):
             files.append(f)
         if inputs.get("stereo"):
             files += [_sample("ST -L", 33, 1), _sample("ST -R", 35, 2)]
+        for q, (a, b) in enumerate(inputs.get("pairs", [])):
+            files += [_sample(f"PAIR{q} -L", a, 1), _sample(f"PAIR{q} -R", b, 2)]
         if inputs.get("stereo") == "very-unequal":
             # halves that differ by far more than one transcoder block; and a pair with one empty half
             files += [_sample("BIG -L", 10000, 3), _sample("BIG -R", 100, 4), _sample("NIL -L", 50, 5), _sample("NIL -R", 50, 6, start=20, end=20)]
         model = expand_akai({"partitions": [{"volumes": [_vol("V", files)]}]})
-        raw = L.aw.build_akai_image(model)
+        raw, layout = L.aw.build_akai_image_ex(model)
+        if "cut_file" in inputs:
+            # an incomplete dump: the image ends inside the body of file number cut_file (at cut_eighths/8 of its sectors, plus a few bytes)
+            fl = layout["partitions"][0]["volumes"][0]["files"][inputs["cut_file"]]
+            secs = sorted(fl["sectors"])
+            at = secs[min(len(secs) - 1, len(secs) * inputs["cut_eighths"] // 8)]
+            raw = raw[:L.aw.sector_offset(layout, 0, at) + inputs.get("cut_odd", 0)]
         with L.Workdir() as w:
             img = w.file("img.akai", raw)
             out = w.sub("out")
@@ -704,8 +712,8 @@ def _oracle_c04(inputs, kind, val, env):
         info, probs = L.wav_info(data)
         if info is None or probs:
             bad.append(f"well-formed-riff-wave({path}: {probs[:3]})")
-    if not reported and not val["error"]:
-        bad.append("nothing-exported")
+    if not reported and not val["error"] and "cut_file" not in inputs:
+        bad.append("nothing-exported")          # harness sanity on complete images (an incomplete dump may legitimately yield nothing)
     return bad
 
 
@@ -734,6 +742,14 @@ def _small_c04(tier, seed, shard=(0, 1)):
     cases.append({"headers": [{"words": 10}, {"words": 0}, {"words": 33, "loops": [{"at": 5, "fine": 0, "coarse": 2, "duration": 9999}], "loop_type": 0}],
                   "stereo": True, "into_used_directory": True})
     cases.append({"headers": [{"words": 40}, {"words": 1}, {"words": 0}], "stereo": "very-unequal"})
+    # L/R halves whose lengths differ by one frame / a few frames, either way round; an empty half
+    cases.append({"headers": [{"words": 7}], "pairs": [(34, 33), (33, 34), (3001, 3000), (3000, 3001), (1, 2), (2, 1), (1, 0), (0, 1)]})
+    cases.append({"headers": [{"words": 7}], "pairs": [(2048, 2049), (2049, 2048), (4097, 4096), (5000, 5003)]})
+    # an incomplete dump: whatever IS reported as exported is still well-formed (cuts inside mono samples and inside either half of pairs)
+    for cf in range(6):
+        for e8 in ((1, 5) if tier == "quick" else range(8)):
+            cases.append({"headers": [{"words": 9000}, {"words": 12500}], "pairs": [(13000, 13000), (9000, 9100)], "cut_file": cf, "cut_eighths": e8,
+                          "cut_odd": (0, 1, 150, 4099)[(cf + e8) % 4]})
     for k, c in enumerate(cases):
         if k % shard[1] == shard[0]:
             yield c
@@ -749,7 +765,8 @@ CONCRETE["e2e:C04"] = {
     "nontrivial": lambda i, s: s["kind"] == "return",
     "bound": "AKAI images whose samples sweep the root-key byte, the semitone byte and the cents byte (each over its whole range in the thorough "
              "tier, every 4th value quick), loop-table corner values (0, 1, 2, 2^31-1, 2^32-1; durations 0/1/9998/9999/65535; 1..8 entries) for "
-             "each loop type, random headers, mono and an L/R pair of unequal length; every reported file parsed by the independent RIFF parser",
+             "each loop type, random headers, mono and L/R pairs of unequal length (differences of 1, 2, 3 frames and whole blocks, either way round, an empty "
+             "half); the same over incomplete dumps cut inside each of 6 files (2 mono, 2 pairs) at 2/8 places; every reported file parsed by the independent RIFF parser",
     "timeout_s": 120.0, "budget_quick": 200, "budget_thorough": 1200,
 }
 
